@@ -41,7 +41,8 @@ RULE = ("seeded point sets from the C11 zoo (uniform, normal, clustered 1e-9 bal
         "{1,2,leaf,leaf+1,n-1,n,n+5,random} and one radius from {0, exact inter-point distance, between two distances, small, "
         "huge}; plus an adversarial family for premature pruning (1-D/2-D, leaf 1-3, random strategy or duplicated points, "
         "query next to an extreme, k in {n-1,n,n+5}); a case is non-trivial when the tree has >= 3 levels and some k exceeds the "
-        "smallest non-empty leaf population; distinct = distinct hash of (coordinates, leaf size, strategy, numpy seed, queries)")
+        "smallest non-empty leaf population; distinct = distinct hash of (coordinates, leaf size, strategy, numpy seed, queries)"
+        "; variants: strategy option in lower case / capitalised / upper case, caller's array overwritten in place after the build")
 REQUIRED = {"termination/build": 300, "structure/partition": 200, "structure/leaf_box": 200, "structure/node_ids": 200,
             "knn/count": 1500, "knn/distances": 800, "knn/order": 1500, "knn/indices": 1500, "radius/set": 1500}
 CASE_TIMEOUT = {"quick": 30.0, "thorough": 300.0}
